@@ -18,6 +18,8 @@
 //! server.
 mod atomic_base_time;
 pub mod nfs_voucher;
+#[cfg(feature = "pkhuong_woodpile_verif")]
+pub mod verif_sync;
 
 use std::io::Result;
 
